@@ -53,6 +53,11 @@ CHECKS.update({
             "Every case is a 3-4 step history through the real _maximization_step (memory-less, first iteration after, with memory) for 11 model / noise configurations incl. the mixture model, all missing-entry patterns of small cohort layouts and all combinations of a 2-valued latent alphabet; every updated parameter is compared with the closed form computed in float64 from the statistics in force and the pre-step parameters; seeded real fits bind every iteration to the same oracle.",
             "Cohorts of 2-3 individuals; latent alphabets of 2 values per group; mixture responsibilities accepted in the implementation's likelihood-only form."),
 })
+CHECKS.update({
+    "C12": ("exploration", "exhaustive enumeration of model kind x dimension x sources x noise x feature naming x instance name x construction route x parameter source (tiny seeded fits, hand-written vectors) through fit / save / load / save against self-consistency and round-trip oracles",
+            "Every configuration of the grid is fitted (tiny seeded fits with a memory phase) or loaded from hand-written numbers, saved, re-loaded, saved again (three generations): population variables equal their prior modes, derived values and trajectories agree with the saved parameters (float64 closed form), the reloaded model has equal class, hyperparameters, parameters and trajectories, and the file is reproduced byte for byte.",
+            "Grid alphabets only; float32 rounding and the documented 0-d vs (1,) noise_std shape are tolerated on the first reload only."),
+})
 NOT_APPLICABLE = {}
 
 def main():
